@@ -51,7 +51,13 @@ class C19(Check):
             if rng.random() < 0.25:
                 off = rng.randint(0, pos)
                 pos -= off
-            vars_.append({"term": t, "sm": sm, "pos": pos, "size": size, "struct_off": off, "via_struct": off > 0 or rng.random() < 0.1})
+            v = {"term": t, "sm": sm, "pos": pos, "size": size, "struct_off": off, "via_struct": off > 0 or rng.random() < 0.1}
+            if rng.random() < 0.4:
+                # described by the terminal's PDO table (ProcessDesc), possibly with a size / bit override
+                v["process"] = True
+                v["override"] = rng.random() < 0.6
+                v["pdo_size"] = rng.choice(["H", "B", 3, "I"]) if v["override"] else size
+            vars_.append(v)
         for _ in range(rng.randint(1, 6)):
             k = rng.randrange(nv)
             v = vars_[k]
@@ -72,7 +78,7 @@ class C19(Check):
     def build(self, case, kernel):
         import random
         from .rig import Rig
-        from ebpfcat.ebpfcat import (FastEtherCat, FastSyncGroup, SyncGroup, Device, TerminalVar, DeviceVar, PacketDesc, Struct)
+        from ebpfcat.ebpfcat import (FastEtherCat, FastSyncGroup, SyncGroup, Device, TerminalVar, DeviceVar, PacketDesc, ProcessDesc, Struct)
         from ebpfcat.ethercat import SyncManager
         SM = {"in": SyncManager.IN, "out": SyncManager.OUT}
         res = {}
@@ -87,7 +93,15 @@ class C19(Check):
                 for k, v in enumerate(case["vars"]):
                     if v["term"] != ti:
                         continue
-                    if v["via_struct"]:
+                    if v.get("process"):
+                        index, coe = 0x6000 + 0x100 * k, (0x10 if v["via_struct"] else 0)
+                        pd = ProcessDesc(index, 1, v["size"]) if v["override"] else ProcessDesc(index, 1)
+                        t.__dict__.setdefault("pdos", {})[index + coe, 1] = (SM[v["sm"]], v["pos"] + v["struct_off"], v["pdo_size"])
+                        if v["via_struct"]:
+                            ns[f"s{k}"] = type(f"S{k}", (Struct,), {"m": pd})(0, 0, coe)
+                        else:
+                            ns[f"p{k}"] = pd
+                    elif v["via_struct"]:
                         S = type(f"S{k}", (Struct,), {"m": PacketDesc(SM[v["sm"]], v["pos"], v["size"])})
                         ns[f"s{k}"] = S(v["struct_off"], v["struct_off"])
                     else:
